@@ -18,6 +18,7 @@ THEOREMS = [
     'C13_effect_independent_of_preexisting', 'C13_job_input_complete', 'C13_hit_restores_exact', 'C13_miss_is_stored',
     'C13_toolchain_too_large_every_request', 'C13_toolchain_fits_every_request',
     'C13_rlibs_complete_when_object_code_needed', 'C13_rlib_never_missing', 'C13_rlib_missing_refuted_before_fix',
+    'C13_simplify_same_file', 'C13_rlib_deps_current',
     'C13_dist_args', 'C13_dist_args_ignore_pp_dep', 'C13_dist_lang_known',
     'C13_dist_args_refuted_before_fix', 'C13_dist_lang_refuted_before_fix',
 ]
@@ -808,6 +809,130 @@ def mon_rustinputs(case, out):
     return vs
 
 
+# ------------------------------------------------------------------ leg simplify
+
+def gen_simplify(rng, tier):
+    """directory trees with symbolic links x paths with `..` / `.`; `..` never climbs above the scratch root and every
+    directory a path walks through exists (the contract is about paths that name a file)."""
+    out = []
+    DD, DOT = b'dotdot', b'dot'
+    trees = [
+        # (links, dirs)
+        ([], [[b'proj', b'a'], [b'proj', b'b', b'c']]),
+        ([[[b'proj', b'link'], [DD, b'real', b'gen']]], [[b'proj', b'a'], [b'real', b'gen', b'x']]),
+        ([[[b'proj', b'link'], [b'root', b'real', b'gen']]], [[b'proj', b'a'], [b'real', b'gen', b'x']]),
+        ([[[b'proj', b'a', b'l2'], [DD, DD, b'real']]], [[b'proj', b'a'], [b'real', b'gen', b'x']]),
+        ([[[b'proj', b'link'], [b'a']]], [[b'proj', b'a', b'x']]),
+        ([[[b'proj', b'link'], [DD, b'real', b'gen']], [[b'real', b'gen', b'back'], [b'root', b'proj']]],
+         [[b'proj', b'a'], [b'real', b'gen', b'x']]),
+    ]
+    # which names are directories below a given real/linked directory, for walking
+    def subdirs(links, dirs, at):
+        # at: canonical tuple; returns child names (dirs and links)
+        kids = set()
+        for d in dirs:
+            for i in range(len(d)):
+                if tuple(d[:i]) == at:
+                    kids.add(d[i])
+        for l in links:
+            if tuple(l[0][:-1]) == at:
+                kids.add(l[0][-1])
+        return sorted(kids)
+
+    def canon(links, at, comp):
+        # one kernel step from canonical dir `at`
+        if comp == DD:
+            return at[:-1]
+        if comp == DOT:
+            return at
+        p = at + (comp,)
+        for l in links:
+            if tuple(l[0]) == p:
+                t = l[1]
+                cur = () if t and t[0] == b'root' else at
+                for c in (t[1:] if t and t[0] == b'root' else t):
+                    cur = canon(links, cur, c)
+                return cur
+        return p
+
+    def walk_paths(links, dirs, maxlen):
+        res = []
+
+        def rec(path, at, lexdepth):
+            if len(path) >= 1:
+                res.append(path + [b'foo.c'])
+            if len(path) >= maxlen:
+                return
+            for k in subdirs(links, dirs, at):
+                rec(path + [k], canon(links, at, k), lexdepth + 1)
+            if lexdepth > 0 and len(at) > 0:
+                rec(path + [DD], canon(links, at, DD), lexdepth - 1)
+            if path and path[-1] != DOT:
+                rec(path + [DOT], at, lexdepth)
+        rec([], (), 0)
+        return res
+    for links, dirs in trees:
+        for pth in walk_paths(links, dirs, 5 if tier == 'thorough' else 4):
+            out.append([links, dirs, pth])
+    return out
+
+
+def mon_simplify(case, out):
+    vs = []
+    if out == b'refused':
+        return vs          # refused paths are compiled locally
+    if out == b'panic' or not isinstance(out, list) or len(out) != 2:
+        return ['simplify_path failed: %r' % (out,)]
+    q, same = out
+    if not same:
+        vs.append('the input path %s is simplified to %s, which is not the same file (the archive entry is named after the '
+                  'simplified path, the compile command uses the original one)'
+                  % (b'/'.join(case[2]).decode(), b'/'.join(x if isinstance(x, bytes) else str(x).encode() for x in q).decode()))
+    if any(c in (b'..', b'.') for c in q if isinstance(c, bytes)):
+        vs.append('the simplified path still contains . or ..')
+    return vs
+
+
+# ------------------------------------------------------------------ leg rustdeps
+
+def gen_rustdeps(rng, tier):
+    import itertools
+    P = b'package'
+    b1, b0, d1, d0 = [b'build', b'bdep', 1], [b'build', b'bdep', 0], [b'build', b'ddep', 1], [b'build', b'ddep', 0]
+    out = [
+        [P, b1, P], [P, b1, P, b0, P], [b1, P], [P, d1, P], [P, b1, P, d1, P, b0, P, d0, P], [P, P, b1, P, P], [P],
+        [P, b0, P], [b1, P, b0, P, b1, P],
+    ]
+    if tier == 'thorough':
+        for seq in itertools.product([b1, b0, d1], repeat=2):
+            out.append([P] + [x for o in seq for x in (o, P)])
+    return out
+
+
+def mon_rustdeps(case, out):
+    vs = []
+    if out == b'no_rustc':
+        return vs
+    uses = {b'bdep': 0, b'ddep': 0}
+    try:
+        for i, (op, o) in enumerate(zip(case, out)):
+            if isinstance(op, list):
+                uses[op[1]] = op[2]
+                if o != b'ok':
+                    vs.append('op %d: rebuilding %s failed' % (i + 1, op[1].decode()))
+            elif op == b'package':
+                if not isinstance(o, list) or (o and o[0] == b'err'):
+                    vs.append('op %d: packaging top\'s inputs failed: %r' % (i + 1, o))
+                    continue
+                for need in [b'libbdep-2222.rlib', b'libddep-4444.rlib'] + ([b'libcdep-1111.rlib'] if any(uses.values()) else []):
+                    if need not in o:
+                        vs.append('op %d: %s is needed by the remote rustc (a dependency\'s metadata names it now) but is not '
+                                  'in the inputs archive %s' % (i + 1, need.decode(), [x.decode() for x in o]))
+    except Exception as e:
+        vs.append('malformed rustdeps observation %r (%s)' % (out, e))
+    return vs
+
+
 # ------------------------------------------------------------------ legs
 
 def legs(tier):
@@ -860,6 +985,22 @@ def _legs(tier):
                  'over all single values, ordered pairs and repeated/mixed comma lists of lib/rlib/staticlib in both spellings, '
                  'every pair of the seven crate types, PRNG lists; dependency rlib = hand-made ar with rust.metadata.bin, a real '
                  'rlib built by the installed rustc, or an archive without metadata; with/without a sibling .a'),
+        Leg('simplify', gen_simplify, monitor=mon_simplify,
+            stats=lambda case, out: ['out=%s' % ('refused' if out == b'refused' else 'path'), 'links=%d' % len(case[0]),
+                                     'dotdot=%d' % sum(1 for c in case[2] if c == b'dotdot')],
+            shrink=lambda case: ([case[0], case[1], case[2][:i] + case[2][i + 1:]] for i in range(len(case[2]))),
+            nontrivial=lambda case, out: b'dotdot' in case[2],
+            rule='the real dist::pkg::simplify_path on real directory trees (6 layouts: no links, relative / absolute links '
+                 'to directories, nested, link to a sibling, links in both directions) x every path of up to 4 (5 thorough) '
+                 'components over the directories, links, `..` and `.` that stays inside the tree; the harness asks the '
+                 'kernel (canonicalize) whether the result names the same file'),
+        Leg('rustdeps', gen_rustdeps, monitor=mon_rustdeps, shards=9,
+            stats=lambda case, out: ['ops=%d' % len(case)],
+            nontrivial=lambda case, out: len(case) > 1,
+            rule='edit histories of a cargo-style workspace top -> {bdep, ddep} -> cdep built with the installed rustc; the '
+                 'inputs of top packaged by the real Rust::new / parse_arguments / generate_hash_key / into_dist_packagers / '
+                 'write_inputs with ONE compiler object (one RlibDepReader cache) per history; bdep / ddep are rebuilt to the '
+                 'same path with or without a reference to cdep'),
         Leg('args', gen_args, monitor=mon_args, stats=stats_args, shrink=shrink_args, neighbours=neighbours_args,
             nontrivial=lambda case, out: out != b'err' and bool(out[1]),
             rule='exhaustive gcc/clang x rewrite_includes_only x 14 languages x suppress x double-dash with all argument '
